@@ -125,7 +125,7 @@ func checkC01(c *Ctx) string {
 			// shape of the registered range
 			for _, s := range res.Of("Read") {
 				call := s.Node.(*ast.CallExpr)
-				ok, why := readArgsShape(fs, call, curKey, rngF, s.Before.Has("state=eof"))
+				ok, why := readArgsShape(p, fs, call, curKey, rngF, s.Before.Has("state=eof"))
 				c.Obl(r1, fs.name+": registered range spans previous position to new position / range bound", p.Pos(call), ok, why)
 			}
 		}
@@ -392,48 +392,118 @@ func parentMap(root ast.Node) map[ast.Node]ast.Node {
 	return m
 }
 
-// readArgsShape: t.Read(oi.table, oi.iIndex, from, to): {from,to} = {previous position, new position or range bound}
-func readArgsShape(fs *FuncSrc, call *ast.CallExpr, curKey, rng *types.Var, atEof bool) (bool, string) {
+// iterDirection: +1 if fs drives the underlying iterators forward (references
+// iface.Iter.Next only), -1 if backward (Prev only), 0 if it cannot be told.
+func iterDirection(p *Prog, fs *FuncSrc) int {
+	itNext := p.IfaceMethod("db19/index/iface", "Iter", "Next")
+	itPrev := p.IfaceMethod("db19/index/iface", "Iter", "Prev")
+	if itNext == nil || itPrev == nil {
+		return 0
+	}
+	n, pv := 0, 0
+	ForEachNode(fs, func(nd ast.Node) {
+		sel, ok := nd.(*ast.SelectorExpr)
+		if !ok {
+			return
+		}
+		if s := fs.Info().Selections[sel]; s != nil {
+			if f, ok := s.Obj().(*types.Func); ok {
+				if sameFunc(f, itNext) {
+					n++
+				}
+				if sameFunc(f, itPrev) {
+					pv++
+				}
+			}
+		}
+	})
+	switch {
+	case n > 0 && pv == 0:
+		return 1
+	case pv > 0 && n == 0:
+		return -1
+	}
+	return 0
+}
+
+// readArgsShape: t.Read(oi.table, oi.iIndex, from, to) must span, in key order,
+// forward:  (previous position | range origin) .. (new position | range end)
+// backward: (new position | range origin) .. (previous position | range end)
+// A range registered the wrong way round (from > to) matches nothing in the checker.
+func readArgsShape(p *Prog, fs *FuncSrc, call *ast.CallExpr, curKey, rng *types.Var, atEof bool) (bool, string) {
 	if len(call.Args) != 4 {
 		return false, "unexpected arity"
 	}
 	info := fs.Info()
 	defs := buildDefs(fs)
+	org := p.Field("db19/index/iface", "Range", "Org")
+	end := p.Field("db19/index/iface", "Range", "End")
 	isCur := func(e ast.Expr) bool { return FieldOf(info, e) == curKey }
-	isBound := func(e ast.Expr) bool {
+	boundOf := func(e ast.Expr) *types.Var {
 		sel, ok := ast.Unparen(e).(*ast.SelectorExpr)
-		return ok && FieldOf(info, sel.X) == rng
+		if !ok || FieldOf(info, sel.X) != rng {
+			return nil
+		}
+		return FieldOf(info, sel)
 	}
-	isPrev := func(e ast.Expr) bool {
-		// a local/parameter (not the field itself)
+	// prevLike: a local/parameter holding the previous position; wrong = the range bound it must not derive from
+	prevLike := func(e ast.Expr, wrong *types.Var) bool {
 		id, ok := ast.Unparen(e).(*ast.Ident)
 		if !ok {
 			return false
 		}
 		o := info.Uses[id]
-		if v, ok := o.(*types.Var); ok && !v.IsField() {
-			// parameter, or local derived from curKey / the range bound
-			if len(defs.defs[o]) == 0 {
-				return true
-			}
-			return defs.Mentions(info, id, func(n ast.Node) bool {
-				e, ok := n.(ast.Expr)
-				return ok && (isCur(e) || isBound(e))
-			})
+		v, ok := o.(*types.Var)
+		if !ok || v.IsField() {
+			return false
 		}
-		return false
+		if len(defs.defs[o]) == 0 {
+			return true // parameter (fastNext/fastPrev receive it from Next/Prev)
+		}
+		okDef := defs.Mentions(info, id, func(n ast.Node) bool {
+			x, ok := n.(ast.Expr)
+			return ok && (isCur(x) || boundOf(x) != nil)
+		})
+		bad := wrong != nil && defs.Mentions(info, id, func(n ast.Node) bool {
+			x, ok := n.(ast.Expr)
+			return ok && boundOf(x) == wrong
+		})
+		return okDef && !bad
 	}
 	from, to := call.Args[2], call.Args[3]
+	dir := iterDirection(p, fs)
+	fwd := func() bool {
+		if atEof {
+			return prevLike(from, end) && boundOf(to) == end && end != nil
+		}
+		return prevLike(from, end) && isCur(to)
+	}
+	bwd := func() bool {
+		if atEof {
+			return boundOf(from) == org && org != nil && prevLike(to, org)
+		}
+		return isCur(from) && prevLike(to, org)
+	}
+	what := "between the previous and the new position"
 	if atEof {
-		if (isPrev(from) && isBound(to)) || (isBound(from) && isPrev(to)) {
+		what = "from the previous position to the bound of the iterator's range"
+	}
+	switch dir {
+	case 1:
+		if fwd() {
 			return true, ""
 		}
-		return false, "at eof the registered range must run from the previous position to the bound of the iterator's range; got (" + exprStr(from) + ", " + exprStr(to) + ")"
+		return false, "moving forward the registered range must run " + what + " in ascending key order (from = previous position); got (" + exprStr(from) + ", " + exprStr(to) + ")"
+	case -1:
+		if bwd() {
+			return true, ""
+		}
+		return false, "moving backward the registered range must run " + what + " in ascending key order (to = previous position); got (" + exprStr(from) + ", " + exprStr(to) + "): a range with from > to matches nothing in the conflict checker"
 	}
-	if (isPrev(from) && isCur(to)) || (isCur(from) && isPrev(to)) {
+	if fwd() || bwd() {
 		return true, ""
 	}
-	return false, "the registered range must run between the previous position and the new position; got (" + exprStr(from) + ", " + exprStr(to) + ")"
+	return false, "the registered range must run " + what + "; got (" + exprStr(from) + ", " + exprStr(to) + ")"
 }
 
 // ---- conflict matrix
